@@ -65,7 +65,14 @@ INDEX_LEG = {
     "exhaustive": False,
 }
 
-LEGS = [INDEX_LEG]
+def _graph_leg(ctx):
+    # calculation-graph-level leg (specs/calcgraph P_Calc, IP-set component of dp = Want), built with C01-C05
+    from checks import c04_graph
+    if not ctx.violations:
+        c04_graph.run_graph_level(ctx)
+
+
+LEGS = [INDEX_LEG, _graph_leg]
 
 
 def drift_run(ctx, P):
